@@ -20,7 +20,7 @@ LEVEL = "exploration"
 SHRINK_BUDGET = 300
 RULE = (
     "case = buffer kind {BufferNumpy, BufferByteArray} x capacity x (offset, length) inside it x primitive "
-    "{update_from_buffer(bytes | bytearray | memoryview | sliced memoryview | ndarray.data of itemsize 1/2/4/8), "
+    "{update_from_buffer(bytes | bytearray | memoryview | sliced memoryview | ndarray.data of itemsize 1/2/4/8 | array.array of 2/8-byte items | ctypes int32 array), "
     "update_from_native(source offset), copy_to_native(dest offset), to_native, to_bytearray, to_pointer_arg, "
     "to_nplike/to_nparray(10 dtypes x 1-3 dim shapes), update_from_nplike(source dtype x dest dtype with exact "
     "conversion x C/F/strided/reversed/N-D/0-length/non-native-byte-order layouts), update_from_xbuffer(other buffer same context | buffer "
@@ -399,10 +399,24 @@ def _pysource(var, pay):
             return None
         dt = {1: "uint8", 2: "int16", 4: "float32", 8: "int64"}[isz]
         return np.frombuffer(pay, dtype=dt).copy().data
+    if var.startswith("array_"):
+        # other objects of the buffer protocol with items wider than a byte: array.array, ctypes arrays
+        import array
+        import ctypes
+
+        code = var[6:]
+        isz = {"h": 2, "d": 8, "c_int32": 4}[code]
+        if n % isz:
+            return None
+        if code == "c_int32":
+            return (ctypes.c_int32 * (n // isz)).from_buffer_copy(pay)
+        a = array.array(code)
+        a.frombytes(pay)
+        return a
     raise ValueError(var)
 
 
-PY_SOURCES = ["bytes", "bytearray", "memoryview", "memoryview_slice", "npdata1", "npdata2", "npdata4", "npdata8"]
+PY_SOURCES = ["bytes", "bytearray", "memoryview", "memoryview_slice", "npdata1", "npdata2", "npdata4", "npdata8", "array_h", "array_d", "array_c_int32"]
 
 
 def _np_source(var):
